@@ -1,5 +1,5 @@
 #!/venv/bin/python
-"""tools/seed_eval.py <Cxx> <N> [--checks C01,C02] [--thorough] : confirm a sub-agent's breaking change and run the checks on it.
+"""tools/seed_eval.py <Cxx> <N> [--checks C01,C02] [--thorough] [--stage confirm|check|both] : confirm a sub-agent's breaking change and run the checks on it.
 
 1. scratch worktree of /repo (outside /repo and /verif): with the patch the repo suite must pass and the demo must FAIL,
    without it the demo must PASS; the worktree is removed again.
@@ -22,29 +22,39 @@ else:                                             # fresh from a sub-agent's scr
     meta = {"property": pid, "change": int(n), "description": open(txt).read().strip() if os.path.exists(txt) else ""}
 assert os.path.exists(diff) and os.path.exists(demo), (diff, demo)
 run = lambda cmd, **kw: subprocess.run(cmd, capture_output=True, text=True, **kw)
+stage = sys.argv[sys.argv.index("--stage") + 1] if "--stage" in sys.argv else "both"
+_keep = {}
+if os.path.exists(kept + "/meta.json"):
+    _km = json.load(open(kept + "/meta.json"))
+    _keep = {k: _km[k] for k in ("breaks_property", "needs_to_manifest") if k in _km}
+    if stage == "check":          # stage 1 (confirmation in a scratch worktree) was done before: re-use its record
+        meta = {k: v for k, v in _km.items() if k != "checks"}
 wt = tempfile.mkdtemp(prefix="vt_seedeval_")
 os.rmdir(wt)
 try:
-    assert run(["git", "-C", "/repo", "worktree", "add", "-q", "--detach", wt, "HEAD"]).returncode == 0
-    env = dict(os.environ, PYTHONPATH=wt)
-    r0 = run(["/venv/bin/python", "-W", "ignore", demo], cwd=wt, env=env, timeout=1800)
-    meta["demo_passes_without_change"] = r0.returncode == 0
-    ap = run(["git", "-C", wt, "apply", diff])
-    meta["patch_applies"] = ap.returncode == 0
-    if not meta["patch_applies"]:
-        meta["apply_error"] = ap.stderr[-300:]
-    else:
-        t = run(["/venv/bin/python", "-m", "pytest", "-q", "-p", "no:cacheprovider", "--timeout=900", "tests"], cwd=wt, timeout=3600)
-        meta["suite_with_change"] = t.stdout.strip().splitlines()[-1] if t.stdout.strip() else t.stderr[-200:]
-        meta["suite_passes_with_change"] = t.returncode == 0
-        r1 = run(["/venv/bin/python", "-W", "ignore", demo], cwd=wt, env=env, timeout=1800)
-        meta["demo_fails_with_change"] = r1.returncode != 0
-        meta["demo_failure"] = (r1.stderr or r1.stdout).strip().splitlines()[-1][:300] if r1.returncode != 0 and (r1.stderr or r1.stdout).strip() else ""
+  if stage != "check":
+        assert run(["git", "-C", "/repo", "worktree", "add", "-q", "--detach", wt, "HEAD"]).returncode == 0
+        env = dict(os.environ, PYTHONPATH=wt)
+        r0 = run(["/venv/bin/python", "-W", "ignore", demo], cwd=wt, env=env, timeout=1800)
+        meta["demo_passes_without_change"] = r0.returncode == 0
+        ap = run(["git", "-C", wt, "apply", diff])
+        meta["patch_applies"] = ap.returncode == 0
+        if not meta["patch_applies"]:
+            meta["apply_error"] = ap.stderr[-300:]
+        else:
+            t = run(["/venv/bin/python", "-m", "pytest", "-q", "-p", "no:cacheprovider", "--timeout=900", "tests"], cwd=wt, timeout=3600)
+            meta["suite_with_change"] = t.stdout.strip().splitlines()[-1] if t.stdout.strip() else t.stderr[-200:]
+            meta["suite_passes_with_change"] = t.returncode == 0
+            r1 = run(["/venv/bin/python", "-W", "ignore", demo], cwd=wt, env=env, timeout=1800)
+            meta["demo_fails_with_change"] = r1.returncode != 0
+            meta["demo_failure"] = (r1.stderr or r1.stdout).strip().splitlines()[-1][:300] if r1.returncode != 0 and (r1.stderr or r1.stdout).strip() else ""
 finally:
     run(["git", "-C", "/repo", "worktree", "remove", "--force", wt])
     shutil.rmtree(wt, ignore_errors=True)
 confirmed = meta.get("patch_applies") and meta.get("suite_passes_with_change") and meta.get("demo_fails_with_change") and meta.get("demo_passes_without_change")
 meta["confirmed"] = bool(confirmed)
+meta.setdefault("breaks_property", _keep.get("breaks_property", pid))
+meta.setdefault("needs_to_manifest", _keep.get("needs_to_manifest", meta.get("description", "")))
 meta["checks"] = {}
 _prev = "/verif/seeded/%s-%s/meta.json" % (pid, n)
 if os.path.exists(_prev):
@@ -52,7 +62,14 @@ if os.path.exists(_prev):
         meta["checks"] = json.load(open(_prev)).get("checks", {})     # keep results of checks that are not re-run now
     except Exception:
         pass
-if confirmed:
+if confirmed and stage == "confirm":
+    out = "/verif/seeded/%s-%s" % (pid, n)
+    os.makedirs(out, exist_ok=True)
+    if os.path.abspath(diff) != os.path.abspath(out + "/patch.diff"):
+        shutil.copy(diff, out + "/patch.diff")
+        shutil.copy(demo, out + "/demo.py")
+    json.dump(meta, open(out + "/meta.json", "w"), indent=1)
+elif confirmed:
     st = run(["git", "-C", "/repo", "status", "--porcelain"]).stdout.strip()
     assert st == "", "repo not clean: " + st
     try:
